@@ -7,673 +7,7 @@ verus! {
 //!include prelude/std_gaps.rs
 //!include prelude/keymap.rs
 
-// ================= vocabulary: graphs, counting, layering, acyclicity (no repository code) =================
-pub open spec fn rows(adj: Seq<Vec<usize>>) -> Seq<Seq<usize>> { adj.map_values(|r: Vec<usize>| r@) }
-
-pub open spec fn wf(adj: Seq<Seq<usize>>, vis: Seq<bool>) -> bool {
-    &&& adj.len() == vis.len()
-    &&& forall|u: int| 0 <= u < adj.len() ==> (#[trigger] adj[u]).len() <= usize::MAX
-    &&& forall|u: int, k: int| 0 <= u < adj.len() && 0 <= k < adj[u].len() ==> (#[trigger] adj[u][k]) < adj.len()
-}
-
-pub open spec fn cnt_row(row: Seq<usize>, v: int) -> nat
-    decreases row.len()
-{
-    if row.len() == 0 { 0 } else { cnt_row(row.drop_last(), v) + if row.last() == v { 1nat } else { 0nat } }
-}
-
-pub open spec fn cnt(adj: Seq<Seq<usize>>, act: Seq<bool>, v: int, upto: int) -> nat
-    decreases upto
-{
-    if upto <= 0 { 0 } else { cnt(adj, act, v, upto - 1) + if act[upto - 1] { cnt_row(adj[upto - 1], v) } else { 0nat } }
-}
-
-proof fn lemma_cnt_row_take(row: Seq<usize>, k: int, v: int)
-    requires 0 <= k < row.len()
-    ensures cnt_row(row.take(k + 1), v) == cnt_row(row.take(k), v) + if row[k] == v { 1nat } else { 0nat },
-{
-    assert(row.take(k + 1).drop_last() =~= row.take(k));
-}
-
-proof fn lemma_cnt_row_mono(row: Seq<usize>, k: int, v: int)
-    requires 0 <= k <= row.len()
-    ensures cnt_row(row.take(k), v) <= cnt_row(row, v)
-    decreases row.len() - k
-{
-    if k == row.len() { assert(row.take(k) =~= row); } else {
-        lemma_cnt_row_take(row, k, v);
-        lemma_cnt_row_mono(row, k + 1, v);
-    }
-}
-
-proof fn lemma_cnt_row_pos(row: Seq<usize>, v: int)
-    requires cnt_row(row, v) > 0
-    ensures exists|k: int| 0 <= k < row.len() && row[k] == v
-    decreases row.len()
-{
-    if row.len() == 0 { } else if row.last() == v { assert(row[row.len() - 1] == v); } else {
-        lemma_cnt_row_pos(row.drop_last(), v);
-        let k = choose|k: int| 0 <= k < row.drop_last().len() && row.drop_last()[k] == v;
-        assert(row[k] == v);
-    }
-}
-
-proof fn lemma_cnt_row_zero(row: Seq<usize>, v: int, k: int)
-    requires cnt_row(row, v) == 0, 0 <= k < row.len()
-    ensures row[k] != v
-    decreases row.len()
-{
-    if k == row.len() - 1 { } else { lemma_cnt_row_zero(row.drop_last(), v, k); }
-}
-
-// deactivating node x removes exactly its row's contribution
-proof fn lemma_cnt_deact(adj: Seq<Seq<usize>>, act: Seq<bool>, x: int, v: int, upto: int)
-    requires 0 <= x < act.len(), act[x], 0 <= upto <= act.len(), adj.len() == act.len()
-    ensures cnt(adj, act, v, upto) == cnt(adj, act.update(x, false), v, upto) + if x < upto { cnt_row(adj[x], v) } else { 0nat }
-    decreases upto
-{
-    if upto > 0 { lemma_cnt_deact(adj, act, x, v, upto - 1); }
-}
-
-proof fn lemma_cnt_mono(adj: Seq<Seq<usize>>, act: Seq<bool>, v: int, a: int, b: int)
-    requires 0 <= a <= b
-    ensures cnt(adj, act, v, a) <= cnt(adj, act, v, b)
-    decreases b - a
-{
-    if a < b { lemma_cnt_mono(adj, act, v, a, b - 1); }
-}
-
-// cnt == 0 means no active node has an edge to v
-proof fn lemma_cnt_zero(adj: Seq<Seq<usize>>, act: Seq<bool>, v: int, upto: int, u: int, k: int)
-    requires cnt(adj, act, v, upto) == 0, 0 <= u < upto, act[u], 0 <= k < adj[u].len()
-    ensures adj[u][k] != v
-    decreases upto
-{
-    if u == upto - 1 { lemma_cnt_row_zero(adj[u], v, k); } else { lemma_cnt_zero(adj, act, v, upto - 1, u, k); }
-}
-
-// cnt > 0 means some active node has an edge to v
-proof fn lemma_cnt_pos(adj: Seq<Seq<usize>>, act: Seq<bool>, v: int, upto: int)
-    requires cnt(adj, act, v, upto) > 0
-    ensures exists|u: int, k: int| 0 <= u < upto && act[u] && 0 <= k < adj[u].len() && adj[u][k] == v
-    decreases upto
-{
-    if upto <= 0 { } else if act[upto - 1] && cnt_row(adj[upto - 1], v) > 0 {
-        let r = adj[upto - 1];
-        lemma_cnt_row_pos(r, v);
-        let k = choose|k: int| 0 <= k < r.len() && r[k] == v;
-        let u = upto - 1;
-        assert(0 <= u < upto && act[u] && 0 <= k < adj[u].len() && adj[u][k] == v);
-    } else {
-        lemma_cnt_pos(adj, act, v, upto - 1);
-        let (u, k) = choose|u: int, k: int| 0 <= u < upto - 1 && act[u] && 0 <= k < adj[u].len() && adj[u][k] == v;
-        assert(0 <= u < upto && act[u] && 0 <= k < adj[u].len() && adj[u][k] == v);
-    }
-}
-
-// The layering property of a level assignment (lvl[u] < 0 means "not placed").
-pub open spec fn edge_ok(adj: Seq<Seq<usize>>, vis: Seq<bool>, lvl: Seq<int>, u: int, k: int) -> bool {
-    (vis[u] && vis[adj[u][k] as int] && lvl[adj[u][k] as int] >= 0) ==> (0 <= lvl[u] < lvl[adj[u][k] as int])
-}
-
-proof fn lemma_nfalse_update(d: Seq<bool>, x: int, upto: int)
-    requires 0 <= x < d.len(), !d[x], 0 <= upto <= d.len()
-    ensures nfalse(d, upto) == nfalse(d.update(x, true), upto) + if x < upto { 1nat } else { 0nat }
-    decreases upto
-{ if upto > 0 { lemma_nfalse_update(d, x, upto - 1); } }
-
-pub open spec fn act(vis: Seq<bool>, done: Seq<bool>) -> Seq<bool> { Seq::new(vis.len(), |i: int| vis[i] && !done[i]) }
-pub open spec fn mem(s: Seq<usize>, v: int) -> bool { exists|i: int| 0 <= i < s.len() && s[i] == v }
-pub open spec fn nodup(s: Seq<usize>) -> bool { forall|i: int, j: int| 0 <= i < j < s.len() ==> s[i] != s[j] }
-pub open spec fn nfalse(d: Seq<bool>, upto: int) -> nat decreases upto { if upto <= 0 { 0 } else { nfalse(d, upto - 1) + if d[upto - 1] { 0nat } else { 1nat } } }
-
-pub open spec fn edge_inv(adj: Seq<Seq<usize>>, vis: Seq<bool>, done: Seq<bool>, lvl: Seq<int>, u: int, k: int) -> bool {
-    let v = adj[u][k] as int;
-    (vis[u] && vis[v] && lvl[v] >= 0) ==> (done[u] && lvl[u] < lvl[v])
-}
-
-// facts that hold at every loop head; `top` is the largest level that may have been handed out
-pub open spec fn core_inv(adj: Seq<Seq<usize>>, vis: Seq<bool>, ind: Seq<usize>, done: Seq<bool>, lvl: Seq<int>, top: int) -> bool {
-    let n = adj.len() as int;
-    &&& forall|v: int| 0 <= v < n ==> ind[v] == cnt(adj, act(vis, done), v, n)
-    &&& forall|v: int| #![trigger lvl[v]] #![trigger ind[v]] 0 <= v < n && lvl[v] >= 0 ==> vis[v] && ind[v] == 0 && lvl[v] <= top
-    &&& forall|v: int| #![trigger lvl[v]] #![trigger done[v]] 0 <= v < n && done[v] ==> lvl[v] >= 0
-    &&& forall|v: int| #![trigger lvl[v]] #![trigger ind[v]] 0 <= v < n && vis[v] && ind[v] == 0 ==> lvl[v] >= 0
-    &&& forall|u: int, k: int| 0 <= u < n && 0 <= k < adj[u].len() ==> edge_inv(adj, vis, done, lvl, u, k)
-}
-
-// a queue holding not-yet-done nodes of level l
-pub open spec fn queue_ok(q: Seq<usize>, done: Seq<bool>, lvl: Seq<int>, l: int, n: int) -> bool {
-    &&& nodup(q)
-    &&& forall|i: int| 0 <= i < q.len() ==> q[i] < n && lvl[q[i] as int] == l && !done[q[i] as int]
-}
-// inserting a fresh node of level l at either end of a queue of level-l nodes keeps it a queue and keeps every
-// level-l node in it (written for both ends so that push_front / push_back are interchangeable)
-proof fn lemma_queue_insert(q0: Seq<usize>, q1: Seq<usize>, x: usize, done: Seq<bool>, lvl: Seq<int>, l: int, n: int)
-    requires
-        q1 =~= seq![x].add(q0) || q1 =~= q0.push(x),
-        x < n, n == lvl.len(), n == done.len(), lvl[x as int] == l, !done[x as int],
-        nodup(q0),
-        forall|i: int| 0 <= i < q0.len() ==> q0[i] < n && #[trigger] q0[i] != x && lvl[q0[i] as int] == l && !done[q0[i] as int],
-        forall|v: int| 0 <= v < n && v != x && lvl[v] == l ==> mem(q0, v),
-    ensures
-        queue_ok(q1, done, lvl, l, n),
-        forall|v: int| 0 <= v < n && lvl[v] == l ==> mem(q1, v),
-{
-    if q1 =~= seq![x].add(q0) {
-        assert forall|i: int, j: int| 0 <= i < j < q1.len() implies q1[i] != q1[j] by {
-            if i == 0 { assert(q1[j] == q0[j - 1]); } else { assert(q1[i] == q0[i - 1] && q1[j] == q0[j - 1]); }
-        }
-        assert forall|i: int| 0 <= i < q1.len() implies q1[i] < n && lvl[q1[i] as int] == l && !done[q1[i] as int] by {
-            if i > 0 { assert(q1[i] == q0[i - 1]); }
-        }
-        assert forall|v: int| 0 <= v < n && lvl[v] == l implies mem(q1, v) by {
-            if v == x { assert(q1[0] == x); }
-            else { let i = choose|i: int| 0 <= i < q0.len() && q0[i] == v; assert(q1[i + 1] == v); }
-        }
-    } else {
-        assert forall|i: int, j: int| 0 <= i < j < q1.len() implies q1[i] != q1[j] by {
-            if j == q0.len() { assert(q1[i] == q0[i]); } else { assert(q1[i] == q0[i] && q1[j] == q0[j]); }
-        }
-        assert forall|i: int| 0 <= i < q1.len() implies q1[i] < n && lvl[q1[i] as int] == l && !done[q1[i] as int] by {
-            if i < q0.len() { assert(q1[i] == q0[i]); }
-        }
-        assert forall|v: int| 0 <= v < n && lvl[v] == l implies mem(q1, v) by {
-            if v == x { assert(q1[q0.len() as int] == x); }
-            else { let i = choose|i: int| 0 <= i < q0.len() && q0[i] == v; assert(q1[i] == v); }
-        }
-    }
-}
-// a finished (or in-progress) group of level l
-pub open spec fn group_ok(g: Seq<usize>, done: Seq<bool>, lvl: Seq<int>, l: int, n: int) -> bool {
-    &&& nodup(g)
-    &&& forall|i: int| 0 <= i < g.len() ==> g[i] < n && lvl[g[i] as int] == l && done[g[i] as int]
-}
-pub open spec fn groups_inv(groups: Seq<Vec<usize>>, done: Seq<bool>, lvl: Seq<int>, top: int) -> bool {
-    let n = done.len() as int;
-    &&& groups.len() == top
-    &&& forall|g: int| 0 <= g < top ==> group_ok(groups[g]@, done, lvl, g, n) && groups[g]@.len() > 0
-    &&& forall|v: int| 0 <= v < n && done[v] && lvl[v] < top ==> mem(groups[lvl[v]]@, v)
-}
-
-
-// ---------- acyclicity vocabulary and the two directions ----------
-pub open spec fn ranked(adj: Seq<Seq<usize>>, vis: Seq<bool>, rank: Seq<int>) -> bool {
-    &&& rank.len() == adj.len()
-    &&& forall|u: int, k: int| 0 <= u < adj.len() && 0 <= k < adj[u].len() && vis[u] && vis[adj[u][k] as int]
-            ==> 0 <= #[trigger] rank[u] < rank[(#[trigger] adj[u][k]) as int]
-}
-pub open spec fn acyclic(adj: Seq<Seq<usize>>, vis: Seq<bool>) -> bool { exists|rank: Seq<int>| ranked(adj, vis, rank) }
-
-// a cycle in the usual sense: a closed walk of visible nodes, length >= 1
-pub open spec fn is_cycle(adj: Seq<Seq<usize>>, vis: Seq<bool>, p: Seq<int>) -> bool {
-    &&& p.len() >= 2 && p[0] == p[p.len() - 1]
-    &&& forall|i: int| 0 <= i < p.len() ==> 0 <= #[trigger] p[i] < adj.len() && vis[p[i]]
-    &&& forall|i: int| 0 <= i < p.len() - 1 ==> has_edge(adj, #[trigger] p[i], p[i + 1])
-}
-
-pub open spec fn has_edge(adj: Seq<Seq<usize>>, u: int, v: int) -> bool { exists|k: int| 0 <= k < adj[u].len() && #[trigger] adj[u][k] == v }
-
-proof fn lemma_walk_rank(adj: Seq<Seq<usize>>, vis: Seq<bool>, rank: Seq<int>, p: Seq<int>, i: int)
-    requires wf(adj, vis), ranked(adj, vis, rank), is_cycle(adj, vis, p), 0 <= i < p.len()
-    ensures rank[p[0]] + i <= rank[p[i]]
-    decreases i
-{
-    if i > 0 {
-        lemma_walk_rank(adj, vis, rank, p, i - 1);
-        let a = p[i - 1];
-        let b = p[i];
-        assert(has_edge(adj, p[i - 1], p[i - 1 + 1]));
-        let k = choose|k: int| 0 <= k < adj[a].len() && #[trigger] adj[a][k] == b;
-        assert(rank[a] < rank[adj[a][k] as int]);
-    }
-}
-pub proof fn lemma_cycle_not_acyclic(adj: Seq<Seq<usize>>, vis: Seq<bool>, p: Seq<int>)
-    requires wf(adj, vis), is_cycle(adj, vis, p)
-    ensures !acyclic(adj, vis)
-{
-    if acyclic(adj, vis) {
-        let rank = choose|rank: Seq<int>| ranked(adj, vis, rank);
-        lemma_walk_rank(adj, vis, rank, p, p.len() - 1);
-    }
-}
-
-// Kahn finished with every visible node placed  ==>  the levels are a rank function
-proof fn lemma_done_acyclic(adj: Seq<Seq<usize>>, vis: Seq<bool>, ind: Seq<usize>, done: Seq<bool>, lvl: Seq<int>, top: int)
-    requires wf(adj, vis), ind.len() == adj.len(), done.len() == adj.len(), lvl.len() == adj.len(),
-        core_inv(adj, vis, ind, done, lvl, top),
-        forall|v: int| 0 <= v < adj.len() && vis[v] ==> done[v],
-    ensures ranked(adj, vis, lvl), acyclic(adj, vis)
-{
-    assert forall|u: int, k: int| 0 <= u < adj.len() && 0 <= k < adj[u].len() && vis[u] && vis[adj[u][k] as int]
-        implies 0 <= #[trigger] lvl[u] < lvl[(#[trigger] adj[u][k]) as int] by {
-        let v = adj[u][k] as int;
-        assert(0 <= v < adj.len());
-        assert(done[v] && done[u]);
-        assert(lvl[v] >= 0 && lvl[u] >= 0);
-        assert(edge_inv(adj, vis, done, lvl, u, k));
-    }
-    assert(ranked(adj, vis, lvl));
-}
-
-// Kahn stuck with a visible node unplaced  ==>  no rank function exists
-proof fn lemma_descent(adj: Seq<Seq<usize>>, vis: Seq<bool>, ind: Seq<usize>, done: Seq<bool>, lvl: Seq<int>, top: int, rank: Seq<int>, x: int)
-    requires wf(adj, vis), ind.len() == adj.len(), done.len() == adj.len(), lvl.len() == adj.len(),
-        core_inv(adj, vis, ind, done, lvl, top),
-        forall|v: int| 0 <= v < adj.len() ==> (lvl[v] >= 0 <==> done[v]),
-        ranked(adj, vis, rank),
-        0 <= x < adj.len(), vis[x], !done[x],
-    ensures false
-    decreases rank[x]
-{
-    let n = adj.len() as int;
-    let a = act(vis, done);
-    // x is visible and unplaced, so its in-degree is non-zero: some active node points at it
-    assert(ind[x] != 0);
-    lemma_cnt_pos(adj, a, x, n);
-    let (u, k) = choose|u: int, k: int| 0 <= u < n && a[u] && 0 <= k < adj[u].len() && adj[u][k] == x;
-    assert(vis[u] && !done[u]);
-    assert(0 <= rank[u] < rank[adj[u][k] as int]);
-    lemma_descent(adj, vis, ind, done, lvl, top, rank, u);
-}
-proof fn lemma_stuck_cyclic(adj: Seq<Seq<usize>>, vis: Seq<bool>, ind: Seq<usize>, done: Seq<bool>, lvl: Seq<int>, top: int, x: int)
-    requires wf(adj, vis), ind.len() == adj.len(), done.len() == adj.len(), lvl.len() == adj.len(),
-        core_inv(adj, vis, ind, done, lvl, top),
-        forall|v: int| 0 <= v < adj.len() ==> (lvl[v] >= 0 <==> done[v]),
-        0 <= x < adj.len(), vis[x], !done[x],
-    ensures !acyclic(adj, vis)
-{
-    if acyclic(adj, vis) {
-        let rank = choose|rank: Seq<int>| ranked(adj, vis, rank);
-        lemma_descent(adj, vis, ind, done, lvl, top, rank, x);
-    }
-}
-
-// ---------- the user-facing statement of a layering ----------
-pub open spec fn at(groups: Seq<Vec<usize>>, g: int, k: int, v: int) -> bool { 0 <= g < groups.len() && 0 <= k < groups[g]@.len() && groups[g]@[k] == v }
-pub open spec fn layered(adj: Seq<Seq<usize>>, vis: Seq<bool>, groups: Seq<Vec<usize>>) -> bool {
-    let n = adj.len() as int;
-    // only visible nodes, every visible node, no node twice, no empty group
-    &&& forall|g: int, k: int| 0 <= g < groups.len() && 0 <= k < groups[g]@.len() ==> (#[trigger] groups[g]@[k]) < n && vis[groups[g]@[k] as int]
-    &&& forall|v: int| 0 <= v < n && vis[v] ==> exists|g: int, k: int| #[trigger] at(groups, g, k, v)
-    &&& forall|g1: int, k1: int, g2: int, k2: int, v: int| #![trigger at(groups, g1, k1, v), at(groups, g2, k2, v)] at(groups, g1, k1, v) && at(groups, g2, k2, v) ==> g1 == g2 && k1 == k2
-    &&& forall|g: int| 0 <= g < groups.len() ==> (#[trigger] groups[g])@.len() > 0
-    // every dependency edge between visible nodes goes from an earlier group to a strictly later one
-    &&& forall|u: int, j: int, gu: int, ku: int, gv: int, kv: int| #![trigger at(groups, gu, ku, u), at(groups, gv, kv, adj[u][j] as int)]
-          0 <= u < n && 0 <= j < adj[u].len() && at(groups, gu, ku, u) && at(groups, gv, kv, adj[u][j] as int) ==> gu < gv
-}
-proof fn lemma_layered(adj: Seq<Seq<usize>>, vis: Seq<bool>, ind: Seq<usize>, done: Seq<bool>, lvl: Seq<int>, groups: Seq<Vec<usize>>)
-    requires wf(adj, vis), ind.len() == adj.len(), done.len() == adj.len(), lvl.len() == adj.len(),
-        core_inv(adj, vis, ind, done, lvl, groups.len() as int), groups_inv(groups, done, lvl, groups.len() as int),
-        forall|v: int| 0 <= v < adj.len() ==> (lvl[v] >= 0 <==> done[v]),
-        forall|v: int| 0 <= v < adj.len() && vis[v] ==> done[v],
-        forall|v: int| 0 <= v < adj.len() && done[v] ==> lvl[v] < groups.len(),
-    ensures layered(adj, vis, groups)
-{
-    let n = adj.len() as int;
-    let top = groups.len() as int;
-    assert forall|g: int, k: int| 0 <= g < groups.len() && 0 <= k < groups[g]@.len() implies (#[trigger] groups[g]@[k]) < n && vis[groups[g]@[k] as int] by {
-        assert(group_ok(groups[g]@, done, lvl, g, n));
-        let x = groups[g]@[k] as int;
-        assert(lvl[x] == g);
-    }
-    assert forall|v: int| 0 <= v < n && vis[v] implies exists|g: int, k: int| #[trigger] at(groups, g, k, v) by {
-        assert(done[v] && 0 <= lvl[v] < top);
-        assert(mem(groups[lvl[v]]@, v));
-        let k = choose|k: int| 0 <= k < groups[lvl[v]]@.len() && groups[lvl[v]]@[k] == v;
-        assert(at(groups, lvl[v], k, v));
-    }
-    assert forall|g1: int, k1: int, g2: int, k2: int, v: int| #![trigger at(groups, g1, k1, v), at(groups, g2, k2, v)] at(groups, g1, k1, v) && at(groups, g2, k2, v) implies g1 == g2 && k1 == k2 by {
-        assert(group_ok(groups[g1]@, done, lvl, g1, n));
-        assert(group_ok(groups[g2]@, done, lvl, g2, n));
-        assert(lvl[groups[g1]@[k1] as int] == g1 && lvl[groups[g2]@[k2] as int] == g2);
-        if k1 != k2 { if k1 < k2 { assert(groups[g1]@[k1] != groups[g1]@[k2]); } else { assert(groups[g1]@[k2] != groups[g1]@[k1]); } }
-    }
-    assert forall|g: int| 0 <= g < groups.len() implies (#[trigger] groups[g])@.len() > 0 by { assert(group_ok(groups[g]@, done, lvl, g, n) && groups[g]@.len() > 0); }
-    assert forall|u: int, j: int, gu: int, ku: int, gv: int, kv: int| #![trigger at(groups, gu, ku, u), at(groups, gv, kv, adj[u][j] as int)]
-          0 <= u < n && 0 <= j < adj[u].len() && at(groups, gu, ku, u) && at(groups, gv, kv, adj[u][j] as int) implies gu < gv by {
-        let v = adj[u][j] as int;
-        assert(group_ok(groups[gu]@, done, lvl, gu, n));
-        assert(group_ok(groups[gv]@, done, lvl, gv, n));
-        assert(lvl[groups[gu]@[ku] as int] == gu && lvl[groups[gv]@[kv] as int] == gv);
-        assert(edge_inv(adj, vis, done, lvl, u, j));
-        assert(vis[u] && vis[v]) by { assert(lvl[u] >= 0 && lvl[v] >= 0); }
-    }
-}
-// ---------- labelled groups (get_labeled_groups): reverse order, label for node ----------
-pub open spec fn labels_of(labels: Seq<String>, group: Seq<usize>, n2l: Map<usize, String>) -> bool {
-    &&& labels.len() == group.len()
-    &&& forall|k: int| 0 <= k < group.len() ==> n2l.dom().contains(#[trigger] group[k]) && labels[k] == n2l[group[k]]
-}
-pub open spec fn labeled_rev(o: Seq<Vec<String>>, groups: Seq<Vec<usize>>, n2l: Map<usize, String>) -> bool {
-    &&& o.len() == groups.len()
-    &&& forall|a: int| 0 <= a < o.len() ==> #[trigger] labels_of(o[a]@, groups[groups.len() - 1 - a]@, n2l)
-}
-pub open spec fn labeled_layering(o: Seq<Vec<String>>, adj: Seq<Seq<usize>>, vis: Seq<bool>, n2l: Map<usize, String>) -> bool {
-    exists|groups: Seq<Vec<usize>>| #[trigger] layered(adj, vis, groups) && labeled_rev(o, groups, n2l)
-}
-proof fn lemma_layered_bounds(adj: Seq<Seq<usize>>, vis: Seq<bool>, groups: Seq<Vec<usize>>)
-    requires layered(adj, vis, groups)
-    ensures forall|g: int, k: int| 0 <= g < groups.len() && 0 <= k < groups[g]@.len() ==> (#[trigger] groups[g]@[k]) < adj.len()
-{ }
-
-// ================= vocabulary: depth-first marking (reachability, stack invariant) =================
-pub open spec fn is_walk(adj: Seq<Seq<usize>>, p: Seq<int>) -> bool {
-    &&& p.len() >= 1
-    &&& forall|i: int| 0 <= i < p.len() ==> 0 <= #[trigger] p[i] < adj.len()
-    &&& forall|i: int| 0 <= i < p.len() - 1 ==> has_edge(adj, #[trigger] p[i], p[i + 1])
-}
-pub open spec fn reachable(adj: Seq<Seq<usize>>, r: int, v: int) -> bool {
-    exists|p: Seq<int>| is_walk(adj, p) && p[0] == r && p[p.len() - 1] == v
-}
-pub open spec fn closed_walk(adj: Seq<Seq<usize>>, p: Seq<int>) -> bool { is_walk(adj, p) && p.len() >= 2 && p[0] == p[p.len() - 1] }
-
-
-// remaining children to look at, summed over the stack
-pub open spec fn rem(adj: Seq<Seq<usize>>, st: Seq<(usize, usize)>) -> int decreases st.len() {
-    if st.len() == 0 { 0 } else { rem(adj, st.drop_last()) + (adj[st.last().0 as int].len() - st.last().1) }
-}
-proof fn lemma_rem_push(adj: Seq<Seq<usize>>, st: Seq<(usize, usize)>, e: (usize, usize))
-    ensures rem(adj, st.push(e)) == rem(adj, st) + (adj[e.0 as int].len() - e.1)
-{ assert(st.push(e).drop_last() =~= st); }
-proof fn lemma_rem_update_last(adj: Seq<Seq<usize>>, st: Seq<(usize, usize)>, e: (usize, usize))
-    requires st.len() > 0
-    ensures rem(adj, st.update(st.len() - 1, e)) == rem(adj, st.drop_last()) + (adj[e.0 as int].len() - e.1)
-{ assert(st.update(st.len() - 1, e).drop_last() =~= st.drop_last()); }
-
-proof fn lemma_rem_nonneg(adj: Seq<Seq<usize>>, st: Seq<(usize, usize)>)
-    requires forall|t: int| 0 <= t < st.len() ==> #[trigger] entry_ok(adj, st, t)
-    ensures rem(adj, st) >= 0
-    decreases st.len()
-{
-    if st.len() > 0 {
-        assert(entry_ok(adj, st, st.len() - 1));
-        assert forall|t: int| 0 <= t < st.drop_last().len() implies #[trigger] entry_ok(adj, st.drop_last(), t) by { assert(entry_ok(adj, st, t)); }
-        lemma_rem_nonneg(adj, st.drop_last());
-    }
-}
-
-pub open spec fn on_stack(st: Seq<(usize, usize)>, x: int) -> bool { exists|t: int| 0 <= t < st.len() && #[trigger] st[t].0 == x }
-
-pub open spec fn entry_ok(adj: Seq<Seq<usize>>, st: Seq<(usize, usize)>, t: int) -> bool {
-    st[t].0 < adj.len() && st[t].1 <= adj[st[t].0 as int].len()
-}
-pub open spec fn link(adj: Seq<Seq<usize>>, st: Seq<(usize, usize)>, t: int) -> bool {
-    st[t].1 >= 1 && adj[st[t].0 as int][st[t].1 - 1] == st[t + 1].0
-}
-pub open spec fn stack_ok(adj: Seq<Seq<usize>>, st: Seq<(usize, usize)>) -> bool {
-    &&& forall|t: int| 0 <= t < st.len() ==> #[trigger] entry_ok(adj, st, t)
-    &&& forall|t: int| 0 <= t < st.len() - 1 ==> #[trigger] link(adj, st, t)
-    &&& forall|s: int, t: int| 0 <= s < t < st.len() ==> (#[trigger] st[s]).0 != (#[trigger] st[t]).0
-}
-
-// a closed set that contains r contains everything reachable from r
-proof fn lemma_closed_contains_reach(adj: Seq<Seq<usize>>, seen: Seq<bool>, r: int, p: Seq<int>, i: int)
-    requires seen.len() == adj.len(), is_walk(adj, p), p[0] == r, 0 <= r < adj.len(), seen[r], 0 <= i < p.len(),
-        forall|x: int, k: int| 0 <= x < adj.len() && seen[x] && 0 <= k < adj[x].len() ==> seen[(#[trigger] adj[x][k]) as int],
-    ensures seen[p[i]]
-    decreases i
-{
-    if i > 0 {
-        lemma_closed_contains_reach(adj, seen, r, p, i - 1);
-        assert(has_edge(adj, p[i - 1], p[i - 1 + 1]));
-        let a = p[i - 1];
-        let k = choose|k: int| 0 <= k < adj[a].len() && #[trigger] adj[a][k] == p[i];
-        assert(seen[adj[a][k] as int]);
-    }
-}
-
-proof fn lemma_reach_step(adj: Seq<Seq<usize>>, r: int, x: int, k: int)
-    requires reachable(adj, r, x), 0 <= x < adj.len(), 0 <= k < adj[x].len(), adj[x][k] < adj.len()
-    ensures reachable(adj, r, adj[x][k] as int)
-{
-    let p = choose|p: Seq<int>| is_walk(adj, p) && p[0] == r && p[p.len() - 1] == x;
-    let y = adj[x][k] as int;
-    let q = p.push(y);
-    assert forall|i: int| 0 <= i < q.len() - 1 implies has_edge(adj, #[trigger] q[i], q[i + 1]) by {
-        if i < p.len() - 1 { assert(has_edge(adj, p[i], p[i + 1])); assert(q[i] == p[i] && q[i + 1] == p[i + 1]); }
-        else { assert(q[i] == x && q[i + 1] == y); }
-    }
-    assert(is_walk(adj, q) && q[0] == r && q[q.len() - 1] == y);
-}
-
-
-#[verifier::opaque]
-pub open spec fn inv(adj: Seq<Seq<usize>>, vis0: Seq<bool>, vis: Seq<bool>, seen: Seq<bool>, st: Seq<(usize, usize)>, node: int, visible: bool) -> bool {
-    let n = adj.len() as int;
-    &&& seen.len() == n && vis.len() == n && vis0.len() == n && 0 <= node < n
-    &&& stack_ok(adj, st)
-    &&& forall|x: int| 0 <= x < n && on_stack(st, x) ==> #[trigger] seen[x]
-    &&& forall|x: int| 0 <= x < n && #[trigger] seen[x] ==> reachable(adj, node, x) && vis[x] == visible
-    &&& forall|x: int| 0 <= x < n && !#[trigger] seen[x] ==> vis[x] == vis0[x]
-    &&& forall|x: int, k: int| 0 <= x < n && seen[x] && !on_stack(st, x) && 0 <= k < adj[x].len() ==> seen[(#[trigger] adj[x][k]) as int]
-    &&& forall|t: int, k: int| 0 <= t < st.len() && 0 <= k < st[t].1 ==> seen[(#[trigger] adj[st[t].0 as int][k]) as int]
-    &&& seen[node]
-}
-
-proof fn lemma_init(adj: Seq<Seq<usize>>, vis0: Seq<bool>, nd: usize, visible: bool)
-    requires wf(adj, vis0), 0 <= nd < adj.len()
-    ensures inv(adj, vis0, vis0.update(nd as int, visible), Seq::new(adj.len(), |i: int| false).update(nd as int, true), seq![(nd, 0usize)], nd as int, visible)
-{
-    reveal(inv);
-    let node = nd as int;
-    let st = seq![(nd, 0usize)];
-    let p = seq![node];
-    assert(is_walk(adj, p) && p[0] == node && p[p.len() - 1] == node);
-    assert(reachable(adj, node, node));
-    assert(st[0].0 == node);
-    assert(on_stack(st, node));
-    assert(entry_ok(adj, st, 0));
-}
-
-// the top entry looked at a child that was already seen and is not on the path
-proof fn lemma_advance(adj: Seq<Seq<usize>>, vis0: Seq<bool>, vis: Seq<bool>, seen: Seq<bool>, st: Seq<(usize, usize)>, node: int, visible: bool)
-    requires wf(adj, vis0), inv(adj, vis0, vis, seen, st, node, visible), st.len() > 0,
-        st.last().1 < adj[st.last().0 as int].len(),
-        seen[adj[st.last().0 as int][st.last().1 as int] as int],
-    ensures ({
-        let e = (st.last().0, (st.last().1 + 1) as usize);
-        let st2 = st.update(st.len() - 1, e);
-        &&& inv(adj, vis0, vis, seen, st2, node, visible)
-        &&& rem(adj, st2) == rem(adj, st) - 1
-        &&& forall|x: int| on_stack(st2, x) <==> on_stack(st, x)
-    })
-{
-    reveal(inv);
-    let top = st.len() - 1;
-    let e = (st.last().0, (st.last().1 + 1) as usize);
-    let st2 = st.update(top, e);
-    assert forall|x: int| on_stack(st2, x) <==> on_stack(st, x) by {
-        if on_stack(st2, x) { let t = choose|t: int| 0 <= t < st2.len() && #[trigger] st2[t].0 == x; assert(st[t].0 == x); }
-        if on_stack(st, x) { let t = choose|t: int| 0 <= t < st.len() && #[trigger] st[t].0 == x; assert(st2[t].0 == x); }
-    }
-    assert(stack_ok(adj, st2)) by {
-        assert forall|t: int| 0 <= t < st2.len() implies #[trigger] entry_ok(adj, st2, t) by {
-            assert(entry_ok(adj, st, t));
-        }
-        assert forall|t: int| 0 <= t < st2.len() - 1 implies #[trigger] link(adj, st2, t) by {
-            assert(link(adj, st, t));
-            assert(st2[t] == st[t]);
-        }
-        assert forall|s: int, t: int| 0 <= s < t < st2.len() implies (#[trigger] st2[s]).0 != (#[trigger] st2[t]).0 by {
-            assert(st[s].0 != st[t].0);
-        }
-    }
-    assert(entry_ok(adj, st, top));
-    assert forall|t: int, k: int| 0 <= t < st2.len() && 0 <= k < st2[t].1 implies seen[(#[trigger] adj[st2[t].0 as int][k]) as int] by {
-        if t == top && k == st.last().1 { } else { assert(seen[adj[st[t].0 as int][k] as int]); }
-    }
-    lemma_rem_update_last(adj, st, e);
-}
-
-// the top entry looked at a fresh child: it is marked and pushed
-proof fn lemma_push(adj: Seq<Seq<usize>>, vis0: Seq<bool>, vis: Seq<bool>, seen: Seq<bool>, st: Seq<(usize, usize)>, node: int, visible: bool)
-    requires wf(adj, vis0), inv(adj, vis0, vis, seen, st, node, visible), st.len() > 0,
-        st.last().1 < adj[st.last().0 as int].len(),
-        !seen[adj[st.last().0 as int][st.last().1 as int] as int],
-    ensures ({
-        let d = adj[st.last().0 as int][st.last().1 as int];
-        let e = (st.last().0, (st.last().1 + 1) as usize);
-        let st2 = st.update(st.len() - 1, e).push((d, 0usize));
-        &&& inv(adj, vis0, vis.update(d as int, visible), seen.update(d as int, true), st2, node, visible)
-        &&& nfalse(seen.update(d as int, true), adj.len() as int) < nfalse(seen, adj.len() as int)
-        &&& forall|x: int| on_stack(st2, x) <==> (on_stack(st, x) || x == d)
-    })
-{
-    reveal(inv);
-    let top = st.len() - 1;
-    let n1 = st.last().0 as int;
-    let d = adj[n1][st.last().1 as int];
-    let e = (st.last().0, (st.last().1 + 1) as usize);
-    let st1 = st.update(top, e);
-    let st2 = st1.push((d, 0usize));
-    let seen2 = seen.update(d as int, true);
-    let vis2 = vis.update(d as int, visible);
-    assert(entry_ok(adj, st, top));
-    assert(d < adj.len());
-    assert(on_stack(st, n1)) by { assert(st[top].0 == n1); }
-    assert(!on_stack(st, d as int));
-    assert forall|x: int| on_stack(st2, x) <==> (on_stack(st, x) || x == d) by {
-        if on_stack(st2, x) { let t = choose|t: int| 0 <= t < st2.len() && #[trigger] st2[t].0 == x; if t < st.len() { assert(st[t].0 == x); } }
-        if on_stack(st, x) { let t = choose|t: int| 0 <= t < st.len() && #[trigger] st[t].0 == x; assert(st2[t].0 == x); }
-        if x == d { assert(st2[st.len() as int].0 == d); }
-    }
-    assert(stack_ok(adj, st2)) by {
-        assert forall|t: int| 0 <= t < st2.len() implies #[trigger] entry_ok(adj, st2, t) by {
-            if t < st.len() { assert(entry_ok(adj, st, t)); }
-        }
-        assert forall|t: int| 0 <= t < st2.len() - 1 implies #[trigger] link(adj, st2, t) by {
-            if t < top { assert(link(adj, st, t)); assert(st2[t] == st[t]); assert(st2[t + 1].0 == st[t + 1].0); }
-            else { assert(st2[t] == e); assert(st2[t + 1] == (d, 0usize)); assert(adj[n1].len() <= usize::MAX); }
-        }
-        assert forall|s: int, t: int| 0 <= s < t < st2.len() implies (#[trigger] st2[s]).0 != (#[trigger] st2[t]).0 by {
-            if t < st.len() { assert(st[s].0 != st[t].0); } else { assert(st[s].0 == st2[s].0); assert(on_stack(st, st[s].0 as int)); }
-        }
-    }
-    assert(seen[n1]);
-    lemma_reach_step(adj, node, n1, st.last().1 as int);
-    assert forall|x: int, k: int| 0 <= x < adj.len() && seen2[x] && !on_stack(st2, x) && 0 <= k < adj[x].len() implies seen2[(#[trigger] adj[x][k]) as int] by {
-        assert(seen[x] && !on_stack(st, x));
-        assert(seen[adj[x][k] as int]);
-    }
-    assert forall|t: int, k: int| 0 <= t < st2.len() && 0 <= k < st2[t].1 implies seen2[(#[trigger] adj[st2[t].0 as int][k]) as int] by {
-        if t == top && k == st.last().1 { } else if t < st.len() { assert(seen[adj[st[t].0 as int][k] as int]); }
-    }
-    lemma_nfalse_update(seen, d as int, adj.len() as int);
-}
-
-// the top entry has no child left
-proof fn lemma_pop(adj: Seq<Seq<usize>>, vis0: Seq<bool>, vis: Seq<bool>, seen: Seq<bool>, st: Seq<(usize, usize)>, node: int, visible: bool)
-    requires wf(adj, vis0), inv(adj, vis0, vis, seen, st, node, visible), st.len() > 0,
-        st.last().1 == adj[st.last().0 as int].len(),
-    ensures ({
-        let st2 = st.drop_last();
-        &&& inv(adj, vis0, vis, seen, st2, node, visible)
-        &&& rem(adj, st2) == rem(adj, st)
-        &&& forall|x: int| on_stack(st2, x) <==> (on_stack(st, x) && x != st.last().0)
-    })
-{
-    reveal(inv);
-    let top = st.len() - 1;
-    let n1 = st.last().0 as int;
-    let st2 = st.drop_last();
-    assert forall|x: int| on_stack(st2, x) <==> (on_stack(st, x) && x != n1) by {
-        if on_stack(st2, x) { let t = choose|t: int| 0 <= t < st2.len() && #[trigger] st2[t].0 == x; assert(st[t].0 == x); assert(st[t].0 != st[top].0); }
-        if on_stack(st, x) && x != n1 { let t = choose|t: int| 0 <= t < st.len() && #[trigger] st[t].0 == x; assert(st2[t].0 == x); }
-    }
-    assert(stack_ok(adj, st2)) by {
-        assert forall|t: int| 0 <= t < st2.len() implies #[trigger] entry_ok(adj, st2, t) by { assert(entry_ok(adj, st, t)); }
-        assert forall|t: int| 0 <= t < st2.len() - 1 implies #[trigger] link(adj, st2, t) by { assert(link(adj, st, t)); }
-        assert forall|s: int, t: int| 0 <= s < t < st2.len() implies (#[trigger] st2[s]).0 != (#[trigger] st2[t]).0 by { assert(st[s].0 != st[t].0); }
-    }
-    assert(entry_ok(adj, st, top));
-    assert forall|x: int, k: int| 0 <= x < adj.len() && seen[x] && !on_stack(st2, x) && 0 <= k < adj[x].len() implies seen[(#[trigger] adj[x][k]) as int] by {
-        if x == n1 { assert(seen[adj[st[top].0 as int][k] as int]); } else { assert(!on_stack(st, x)); }
-    }
-    assert forall|t: int, k: int| 0 <= t < st2.len() && 0 <= k < st2[t].1 implies seen[(#[trigger] adj[st2[t].0 as int][k]) as int] by {
-        assert(seen[adj[st[t].0 as int][k] as int]);
-    }
-    assert forall|x: int| 0 <= x < adj.len() && on_stack(st2, x) implies #[trigger] seen[x] by { assert(on_stack(st, x)); }
-}
-
-proof fn lemma_inv_top(adj: Seq<Seq<usize>>, vis0: Seq<bool>, vis: Seq<bool>, seen: Seq<bool>, st: Seq<(usize, usize)>, node: int, visible: bool)
-    requires wf(adj, vis0), inv(adj, vis0, vis, seen, st, node, visible), st.len() > 0
-    ensures stack_ok(adj, st), entry_ok(adj, st, st.len() - 1), vis.len() == adj.len(), seen.len() == adj.len(),
-        adj[st.last().0 as int].len() <= usize::MAX,
-        st.last().1 < adj[st.last().0 as int].len() ==> adj[st.last().0 as int][st.last().1 as int] < adj.len(),
-{
-    reveal(inv);
-    assert(entry_ok(adj, st, st.len() - 1));
-}
-
-// reaching a node of the current path closes a walk
-proof fn lemma_cycle(adj: Seq<Seq<usize>>, st: Seq<(usize, usize)>, d: int)
-    requires stack_ok(adj, st), st.len() > 0, st.last().1 < adj[st.last().0 as int].len(),
-        adj[st.last().0 as int][st.last().1 as int] == d, on_stack(st, d),
-        forall|u: int, k: int| 0 <= u < adj.len() && 0 <= k < adj[u].len() ==> (#[trigger] adj[u][k]) < adj.len(),
-    ensures exists|p: Seq<int>| closed_walk(adj, p)
-{
-    let t0 = choose|t: int| 0 <= t < st.len() && #[trigger] st[t].0 == d;
-    let top = st.len() - 1;
-    lemma_stack_walk(adj, st, t0, top);
-    let q = choose|q: Seq<int>| is_walk(adj, q) && q[0] == st[t0].0 && q[q.len() - 1] == st[top].0;
-    let p = q.push(d);
-    assert(entry_ok(adj, st, top));
-    assert(entry_ok(adj, st, t0));
-    assert forall|i: int| 0 <= i < p.len() - 1 implies has_edge(adj, #[trigger] p[i], p[i + 1]) by {
-        if i < q.len() - 1 { assert(has_edge(adj, q[i], q[i + 1])); assert(p[i] == q[i] && p[i + 1] == q[i + 1]); }
-        else { let u = st[top].0 as int; let k = st.last().1 as int; assert(adj[u][k] == d); assert(p[i] == u && p[i + 1] == d); }
-    }
-    assert(closed_walk(adj, p));
-}
-
-// the nodes st[a..=b] of the stack form a walk
-proof fn lemma_stack_walk(adj: Seq<Seq<usize>>, st: Seq<(usize, usize)>, a: int, b: int)
-    requires stack_ok(adj, st), 0 <= a <= b < st.len()
-    ensures exists|q: Seq<int>| is_walk(adj, q) && q[0] == st[a].0 && q[q.len() - 1] == st[b].0
-    decreases b - a
-{
-    if a == b {
-        let q = seq![st[a].0 as int];
-        assert(entry_ok(adj, st, a));
-        assert(is_walk(adj, q) && q[0] == st[a].0 && q[q.len() - 1] == st[b].0);
-    } else {
-        lemma_stack_walk(adj, st, a, b - 1);
-        let q0 = choose|q: Seq<int>| is_walk(adj, q) && q[0] == st[a].0 && q[q.len() - 1] == st[b - 1].0;
-        let q = q0.push(st[b].0 as int);
-        assert(link(adj, st, b - 1));
-        assert(entry_ok(adj, st, b - 1));
-        assert(entry_ok(adj, st, b));
-        assert forall|i: int| 0 <= i < q.len() - 1 implies has_edge(adj, #[trigger] q[i], q[i + 1]) by {
-            if i < q0.len() - 1 { assert(has_edge(adj, q0[i], q0[i + 1])); assert(q[i] == q0[i] && q[i + 1] == q0[i + 1]); }
-            else { let u = st[b - 1].0 as int; let k = st[b - 1].1 - 1; assert(adj[u][k] == st[b].0); assert(q[i] == u); }
-        }
-        assert(is_walk(adj, q) && q[0] == st[a].0 && q[q.len() - 1] == st[b].0);
-    }
-}
-
-proof fn lemma_final(adj: Seq<Seq<usize>>, vis0: Seq<bool>, vis: Seq<bool>, seen: Seq<bool>, node: int, visible: bool)
-    requires wf(adj, vis0), inv(adj, vis0, vis, seen, Seq::<(usize, usize)>::empty(), node, visible)
-    ensures forall|v: int| 0 <= v < adj.len() ==> vis[v] == (if reachable(adj, node, v) { visible } else { vis0[v] })
-{
-    reveal(inv);
-    let st = Seq::<(usize, usize)>::empty();
-    assert forall|x: int| !on_stack(st, x) by { }
-    assert forall|x: int, k: int| 0 <= x < adj.len() && seen[x] && 0 <= k < adj[x].len() implies seen[(#[trigger] adj[x][k]) as int] by {
-        assert(!on_stack(st, x));
-    }
-    assert forall|v: int| 0 <= v < adj.len() implies vis[v] == (if reachable(adj, node, v) { visible } else { vis0[v] }) by {
-        if reachable(adj, node, v) {
-            let p = choose|p: Seq<int>| is_walk(adj, p) && p[0] == node && p[p.len() - 1] == v;
-            lemma_closed_contains_reach(adj, seen, node, p, p.len() - 1);
-            assert(seen[v]);
-            assert(vis[v] == visible);
-        } else {
-            assert(!seen[v]);
-            assert(vis[v] == vis0[v]);
-        }
-    }
-}
+//!include units/graph/vocab.rs
 
 // ================= repository text =================
 //!type src/core/graph.rs GraphError
@@ -877,6 +211,8 @@ impl Dag {
        @requires wf(old(self).adj(), old(self).visibility@), node < old(self).adj().len(),
        @ensures
            @final(self).adj() == old(self).adj(), final(self).visibility@.len() == old(self).visibility@.len(),
+           @final(self).adj_list == old(self).adj_list, final(self).cycle_state == old(self).cycle_state,
+           @final(self).label2node == old(self).label2node, final(self).node2label == old(self).node2label,
            @res is Ok ==> forall|v: int| 0 <= v < old(self).adj().len() ==>
                @final(self).visibility@[v] == (if reachable(old(self).adj(), node as int, v) { visible } else { old(self).visibility@[v] }),
            @res is Err ==> exists|p: Seq<int>| closed_walk(old(self).adj(), p),
@@ -903,6 +239,7 @@ impl Dag {
         while !stack.is_empty()
            @invariant
                @adj == self.adj(), adj == old(self).adj(), vis0 == old(self).visibility@, gn == adj.len(), wf(adj, vis0), node < gn,
+               @self.adj_list == old(self).adj_list, self.cycle_state == old(self).cycle_state, self.label2node == old(self).label2node, self.node2label == old(self).node2label,
                @inv(adj, vis0, self.visibility@, seen, stack@, node as int, visible), self.visibility@.len() == gn, seen.len() == gn,
                @forall|x: usize| #![trigger visited@.contains(x)] visited@.contains(x) <==> (x < gn && seen[x as int]),
                @forall|x: usize| active@.contains(x) <==> on_stack(stack@, x as int),
